@@ -20,6 +20,9 @@ pub(crate) fn bare_zalsa() -> Zalsa {
 }
 
 impl Zalsa {
+    pub(crate) fn verif_n_ingredients(&self) -> usize {
+        self.ingredients_vec.len()
+    }
     /// What `Zalsa::insert_jar` does with each ingredient a jar creates (minus the jar map).
     pub(crate) fn verif_push(&mut self, ingredient: Box<dyn Ingredient>) {
         let expected_index = ingredient.ingredient_index();
@@ -252,7 +255,7 @@ pub(crate) mod oracle {
         unsafe { std::mem::transmute::<std::ptr::NonNull<()>, crate::database::RawDatabase<'a>>(std::ptr::NonNull::dangling()) }
     }
 
-    //@off(pending-measurement) id=K-Z-2 kind=B bound=3-ingredients,1-registered props=C05 fn=Zalsa::new_revision,Zalsa::evict_lru
+    //@off(cbmc-does-not-finish) id=K-Z-2 kind=B bound=3-ingredients,1-registered props=C05 fn=Zalsa::new_revision,Zalsa::evict_lru
     //@ pre: 3 ingredients, exactly one (symbolic which) registered as requiring reset; choose new_revision or evict_lru
     //@ post: reset_for_new_revision is called exactly once, on the registered ingredient; new_revision returns current+1 and installs it; evict_lru leaves the revision alone
     #[cfg_attr(kani, kani::proof)]
